@@ -510,9 +510,16 @@ def cmd_check(prop, tier):
         print('note: wall-clock timeouts that did not reproduce in fresh processes were dropped: %s' % soft)
     unconfirmed = [u for u in unconfirmed if u not in soft]
     if unconfirmed and not reported:
-        # nothing confirmed, something seen that does not replay: a harness problem, not a finding
-        print('HARNESS-NONDETERMINISM: %d candidate signature(s) seen but none reproduced in fresh processes: %s' % (len(unconfirmed), unconfirmed))
-        exit_code = 2
+        # nothing confirmed, something seen that does not replay.  Either the harness is nondeterministic (exit 2)
+        # or the code under test behaves erratically (undefined behaviour that depends on what the worker
+        # process had executed before).  The determinism sample tells the two apart.
+        print('%d candidate signature(s) seen but none reproduced in fresh processes (not even on the ASan build): %s' % (len(unconfirmed), unconfirmed))
+        rc = cmd_determinism(16, [prop])
+        if rc != 0:
+            print('HARNESS-NONDETERMINISM: the determinism sample fails as well')
+            exit_code = 2
+        else:
+            print('note: the harness itself is deterministic on this tree (16 jobs x 2 pools agree); the candidates are erratic behaviour of the code under test that could not be turned into a replayable case - no violation is claimed')
     for k in known:
         print('KNOWN-FINDING: property=%s %s (matched %d times in this run)' % (prop, k['desc'], known_hits.get(k['desc'], 0)))
 
